@@ -25,6 +25,10 @@ pub enum Block {
     WriteAt { addr: u32, text: Vec<u8>, fd: u32 },
     /// MES set_handler(vector, handler address of `Handler` entry `handler`)
     SetHandler { vector: u32, handler: usize },
+    /// set_handler whose 8-byte argument block ends at the last byte of DRAM (`dram_end`) or of on-chip RAM
+    SetHandlerAt { vector: u32, handler: usize, dram_end: bool },
+    /// write whose 12-byte argument block ends at the last byte of DRAM / on-chip RAM (buffer in the data area)
+    WriteArgAt { text: Vec<u8>, dram_end: bool },
     /// TRAPA #0 with an unsupported call number
     Syscall { id: u32 },
     /// TRAPA #1..#3
@@ -35,6 +39,12 @@ pub enum Block {
     Raw(Vec<u8>),
     /// increment the 32-bit progress word (main-line counter; lets oracles see progress)
     Tick,
+    /// the most expensive instruction form: MOV.L #progress,ER6 ; MOV.L @(0:24,ER6),ER1 (five fetch cycles + a long read)
+    Heavy,
+    /// rewrite a vector table entry at run time with ordinary stores: ER0 saved ; MOV.L #(top<<24 | handler),ER0 ; MOV.L ER0,@(4*vector) ; ER0 restored
+    SetVector { vector: u8, handler: usize, top: u8 },
+    /// MOV.L #value,ER5
+    LoadEr5(u32),
 }
 
 #[derive(Clone, Debug, Serialize, Deserialize, PartialEq)]
@@ -305,6 +315,37 @@ impl GuestSpec {
                     a.mov_l_imm(1, blk);
                     a.trapa(0);
                 }
+                Block::SetHandlerAt { vector, handler, dram_end } => {
+                    let target = hinfo.get(*handler).ok_or("SetHandlerAt: no such handler")?.addr;
+                    let blk = if *dram_end { 0x600000 - 8 } else { 0xffff20 - 8 };
+                    let mut bytes = Vec::new();
+                    bytes.extend_from_slice(&vector.to_be_bytes());
+                    bytes.extend_from_slice(&target.to_be_bytes());
+                    extra_segments.push((blk, bytes));
+                    a.mov_l_imm(0, 113);
+                    a.mov_l_imm(1, blk);
+                    a.trapa(0);
+                }
+                Block::WriteArgAt { text, dram_end } => {
+                    let use_big = data.here() + text.len() as u32 + 16 > lay.data_limit;
+                    let d: &mut Asm = if use_big { &mut big } else { &mut data };
+                    let buf = d.here();
+                    d.raw(text);
+                    while d.here() % 2 != 0 {
+                        d.b.push(0xee);
+                    }
+                    let blk = if *dram_end { 0x600000 - 12 } else { 0xffff20 - 12 };
+                    let mut bytes = Vec::new();
+                    bytes.extend_from_slice(&1u32.to_be_bytes());
+                    bytes.extend_from_slice(&buf.to_be_bytes());
+                    bytes.extend_from_slice(&(text.len() as u32).to_be_bytes());
+                    extra_segments.push((blk, bytes));
+                    a.mov_l_imm(0, 104);
+                    a.mov_l_imm(1, blk);
+                    let trapa_pc = a.here();
+                    a.trapa(0);
+                    writes.push(WriteInfo { block: bi, trapa_pc, buf, len: text.len() as u32, text: text.clone() });
+                }
                 Block::Syscall { id } => {
                     a.mov_l_imm(0, *id);
                     a.mov_l_imm(1, progress);
@@ -323,6 +364,21 @@ impl GuestSpec {
                         a.b.push(0);
                     }
                 }
+                Block::Heavy => {
+                    a.mov_l_imm(6, progress);
+                    a.raw(&[0x01, 0x00, 0x78, 0x60, 0x6b, 0x21, 0x00, 0x00, 0x00, 0x00]);
+                }
+                Block::SetVector { vector, handler, top } => {
+                    let target = hinfo.get(*handler).ok_or("SetVector: no such handler")?.addr;
+                    if *vector == 0 || *vector >= 64 {
+                        return Err("SetVector: vector number".into());
+                    }
+                    a.push_l(0);
+                    a.mov_l_imm(0, ((*top as u32) << 24) | (target & 0x00ff_ffff));
+                    a.mov_l_to_abs24(0, 4 * *vector as u32);
+                    a.pop_l(0);
+                }
+                Block::LoadEr5(v) => a.mov_l_imm(5, *v),
                 Block::Tick => {
                     a.push_l(0);
                     a.mov_l_from_abs24(0, progress);
